@@ -321,6 +321,9 @@ func (c *Check) writeEvidence(nOK, nFail, nKnown, nAdv int, perRule map[string][
 var evalStack []string
 var droppedImports int
 
+// importsOff > 0 while a check runs as a source of shared rules.
+var importsOff int
+
 // runRegistered evaluates check id into c, keeping the evaluation stack; as a shared-rule source a panic becomes an
 // undecided obligation of the source.
 func runRegistered(id string, c *Check, asSource bool) {
@@ -334,6 +337,9 @@ func runRegistered(id string, c *Check, asSource bool) {
 		}()
 	}
 	registry[id](c)
+	for _, h := range postHooks[id] {
+		h(c)
+	}
 }
 
 // subCheckCache holds the obligations of checks evaluated as a source of shared rules (per loaded program).
@@ -344,28 +350,23 @@ var subCheckCache = map[string][]Obligation{}
 // (short name). A rule shared between properties is a necessary condition of each of them; it is evaluated by the
 // same code and reported under each property that needs it. Returns the number of obligations imported.
 func importObs(c *Check, from, fromRule, as string, keep func(o Obligation) bool) int {
+	// A check evaluated as a source supplies only ITS OWN rules (every import names a rule the source decides
+	// itself), so its own imports are switched off while it runs: no cycles, and every source is evaluated once
+	// per program and cached.
+	if importsOff > 0 {
+		return 0
+	}
 	ck := fmt.Sprintf("%p|%s|%s", c.P, from, c.Tier)
 	obs, ok := subCheckCache[ck]
 	if !ok {
-		// Imports may form a cycle (A takes a rule of B, B one of C, C one of A). A check that is already being
-		// evaluated further up is not entered again: the nested evaluation only exists to supply ITS OWN rules to its
-		// importer, so the import it would have made is dropped there — and a result computed with a dropped import
-		// is used once but never cached (the next importer evaluates the source in full).
-		for _, id := range evalStack {
-			if id == from {
-				droppedImports++
-				return 0
-			}
-		}
 		sub := NewCheck(from, c.Tier, c.P)
 		saved := walkerTruncations
-		before := droppedImports
+		importsOff++
 		runRegistered(from, sub, true)
+		importsOff--
 		walkerTruncations = saved
 		obs = sub.Obs
-		if droppedImports == before {
-			subCheckCache[ck] = obs
-		}
+		subCheckCache[ck] = obs
 	}
 	n := 0
 	for _, o := range obs {
